@@ -102,3 +102,120 @@ Definition order_pairs_ranked : bool :=
   forallb (fun p => Nat.ltb (lock_rank (fst p)) (lock_rank (snd p))) order_pairs.
 
 Definition leaked_locks : list (string * string) := M.lock_leak_table.
+
+(* ---- C18: the lock discipline of the shared fields of mailbox/*.go ----
+   Two accesses to one field of a shared struct, one of them a write, performed by code that can run in two
+   goroutines at once, hold a common mutex. The locks of an access are those taken in its own function plus those
+   that EVERY call site of that function holds (transitively): ClientConn guards its transport with sendMu /
+   receiveMu around the calls into it, NoiseGrpcConn.read runs under the reader's proxyConnMtx, and so on. *)
+Fixpoint last_seg (s acc : string) : string :=
+  match s with
+  | EmptyString => acc
+  | String c r => if Ascii.eqb c "."%char then last_seg r "" else last_seg r (acc ++ String c "")
+  end.
+Definition short_name (f : string) : string := last_seg f "".
+
+(* calls inside the package, with the callee's type: Type.method, or Interface.method for a call through an interface
+   of the package, which resolves to every function of that name *)
+Definition callees (f : string) : list string :=
+  map (fun r => snd (fst r)) (filter (fun r => String.eqb (fst (fst r)) f) M.call_lock_table).
+Definition resolve (callee : string) : list string :=
+  if mem callee M.function_table then [callee]
+  else filter (fun f => String.eqb (short_name f) (short_name callee)) M.function_table.
+
+Fixpoint reach (fuel : nat) (frontier seen : list string) : list string :=
+  match fuel with
+  | O => seen
+  | S n =>
+      let next := flat_map (fun f => flat_map resolve (callees f)) frontier in
+      let fresh := filter (fun f => negb (mem f seen)) next in
+      match fresh with
+      | [] => seen
+      | _ => reach n (nodup string_dec fresh) (List.app seen (nodup string_dec fresh))
+      end
+  end.
+
+(* who can run at the same time: the methods an application (gRPC) may call from any goroutine; the two callbacks
+   that the GBN connection calls from its own goroutines (send: from its send loop, its receive loop (ACKs) and
+   Close (FIN), so also concurrently with itself; recv: one goroutine); Dial and Accept, which their caller (gRPC's
+   dialer / Serve loop) calls one at a time *)
+Definition roles : list (string * list string) :=
+  [ ("api", ["ClientConn.Close"; "ClientConn.ReceiveControlMsg"; "ClientConn.SendControlMsg"; "ClientConn.SetRecvTimeout";
+             "ClientConn.SetSendTimeout"; "ClientConn.Done";
+             "ServerConn.Close"; "ServerConn.Stop"; "ServerConn.ReceiveControlMsg"; "ServerConn.SendControlMsg";
+             "ServerConn.SetRecvTimeout"; "ServerConn.SetSendTimeout"; "ServerConn.Done";
+             "connKit.Read"; "connKit.Write"; "connKit.SetDeadline"; "connKit.SetReadDeadline"; "connKit.SetWriteDeadline";
+             "connKit.LocalAddr"; "connKit.RemoteAddr";
+             "NoiseGrpcConn.Read"; "NoiseGrpcConn.Write"; "NoiseGrpcConn.Close"; "NoiseGrpcConn.LocalAddr";
+             "NoiseGrpcConn.RemoteAddr"; "NoiseGrpcConn.ClientHandshake"; "NoiseGrpcConn.ServerHandshake"; "NoiseGrpcConn.Clone";
+             "noiseGrpcSessionConn.Read"; "noiseGrpcSessionConn.Write"; "noiseGrpcSessionConn.Close";
+             "Client.ConnStatus"; "Server.Close"; "Server.Addr";
+             "ConnData.SID"; "ConnData.RemoteKey"; "ConnData.SetRemote"; "ConnData.AuthData"; "ConnData.SetAuthData";
+             "ConnData.HandshakePattern"; "ConnData.LocalKey"; "ConnData.PassphraseEntropy"]);
+    ("gbn-send", ["ClientConn.send"; "ServerConn.sendToStream"]);
+    ("gbn-recv", ["ClientConn.recv"; "ServerConn.recvFromStream"]);
+    ("dial", ["Client.Dial"]);
+    ("accept", ["Server.Accept"]) ].
+
+Definition self_concurrent (r : string) : bool := String.eqb r "api" || String.eqb r "gbn-send".
+
+Definition role_table : list (string * list string) :=
+  Eval vm_compute in map (fun r => (fst r, reach 40 (snd r) (snd r))) roles.
+Definition roles_of (f : string) : list string := map fst (filter (fun r => mem f (snd r)) role_table).
+
+(* construction: the object is not shared yet *)
+Definition init_funcs : list string :=
+  ["NewClientConn"; "RefreshClientConn"; "refreshClientConn"; "NewServerConn"; "RefreshServerConn"; "NewClient"; "NewServer";
+   "NewNoiseGrpcConn"; "NewConnData"; "newGrpcTransport"; "newWebsocketTransport"; "grpcTransport.Refresh";
+   "websocketTransport.Refresh"; "WithMinHandshakeVersion"; "WithMaxHandshakeVersion"].
+
+(* locks held by every caller *)
+Definition entry_points : list string := flat_map snd roles.
+Definition calls_to (f : string) : list (string * string * list string) :=
+  filter (fun r => String.eqb (snd (fst r)) f ||
+                   (negb (mem (snd (fst r)) M.function_table) && String.eqb (short_name (snd (fst r))) (short_name f)))
+         M.call_lock_table.
+Definition inter (a b : list string) : list string := filter (fun x => mem x b) a.
+Definition inh_round (tbl : list (string * list string)) : list (string * list string) :=
+  map (fun f =>
+         (f, if mem f entry_points then [] else
+             match calls_to f with
+             | [] => []
+             | c :: cs =>
+                 let eff := fun r : string * string * list string =>
+                              List.app (map short_name (snd r)) (lookup_acq tbl (fst (fst r))) in
+                 fold_left (fun acc r => inter acc (eff r)) cs (eff c)
+             end)) M.function_table.
+Fixpoint inh_iter (n : nat) (tbl : list (string * list string)) : list (string * list string) :=
+  match n with O => tbl | S k => inh_iter k (inh_round tbl) end.
+Definition inh_table : list (string * list string) :=
+  Eval vm_compute in inh_iter 8 (map (fun f => (f, [])) M.function_table).
+Definition same_set (a b : list string) : bool := forallb (fun x => mem x b) a && forallb (fun x => mem x a) b.
+Definition inh_stable : bool :=
+  forallb (fun p => same_set (snd (fst p)) (snd (snd p))) (combine inh_table (inh_round inh_table)).
+
+Definition acc := (string * string * bool * string * list string * bool)%type.
+Definition a_struct (a : acc) := fst (fst (fst (fst (fst a)))).
+Definition a_field (a : acc) := snd (fst (fst (fst (fst a)))).
+Definition a_write (a : acc) := snd (fst (fst (fst a))).
+Definition a_fn (a : acc) := snd (fst (fst a)).
+Definition a_locks (a : acc) := List.app (snd (fst a)) (lookup_acq inh_table (snd (fst (fst a)))).
+Definition a_atomic (a : acc) := snd a.
+Definition share_lock (a b : acc) : bool := existsb (fun l => mem l (a_locks b)) (a_locks a).
+
+Definition acc_roles : list (acc * list string) :=
+  Eval vm_compute in map (fun a => (a, roles_of (a_fn a)))
+                         (filter (fun a => negb (mem (a_fn a) init_funcs)) M.access_table).
+
+Definition concurrent (ra rb : list string) : bool :=
+  existsb (fun x => existsb (fun y => negb (String.eqb x y) || self_concurrent x) rb) ra.
+
+Definition conflict (a b : acc * list string) : bool :=
+  String.eqb (a_field (fst a)) (a_field (fst b)) && String.eqb (a_struct (fst a)) (a_struct (fst b)) &&
+  (a_write (fst a) || a_write (fst b)) && negb (a_atomic (fst a) && a_atomic (fst b)) &&
+  negb (share_lock (fst a) (fst b)) && concurrent (snd a) (snd b).
+
+(* struct, field, the two functions *)
+Definition lock_violations : list (string * string * string * string) :=
+  flat_map (fun a => map (fun b => (a_struct (fst a), a_field (fst a), a_fn (fst a), a_fn (fst b)))
+                         (filter (conflict a) acc_roles)) acc_roles.
